@@ -2815,3 +2815,91 @@ def spec_mangen_version(fns, consts):
 
 spec_mangen_version.crate = "clap_mangen"
 SPECS["C19"].append(spec_mangen_version)
+
+
+# ------------------------------------------------------------------ C19: user text cannot start a roff request through a request's arguments
+
+def split_top_level(text):
+    out, depth, cur = [], 0, ""
+    for ch in text:
+        if ch in "([{<":
+            depth += 1
+        elif ch in ")]}>":
+            depth -= 1
+        if ch == "," and depth == 0:
+            out.append(cur)
+            cur = ""
+        else:
+            cur += ch
+    if cur:
+        out.append(cur)
+    return out
+
+
+def spec_mangen_control_args(fns, consts):
+    """clap_mangen: `Roff::control(name, args)` writes `.name arg ...` on one line; an argument that
+    contains a line break would start a new line the reader takes for a request.  In every section
+    renderer of lib.rs each argument of a control call is either a literal or derived from user text only
+    through `control_arg` (which removes line breaks: its MIR is `str::replace([\\n, \\r], " ")`), and the
+    `.TH` arguments are the elements of title_args(), whose mapping closure applies control_arg."""
+    con = contracts.Contracts(fns, default_pure=True)
+    ctx = symex.Ctx(consts, con)
+    obs, enc = [], []
+
+    def add(fn, msg, ok):
+        obs.append({"fn": fn, "block": "call", "kind": "spec", "target": "mangen_control_args", "msg": msg, "pc": [], "neg": "false" if ok else "true"})
+
+    n_calls = 0
+    for n, f in sorted(fns.items()):
+        if "lib.rs" not in n or "closure" in n or not re.search(r"::_render_\w+$", n):
+            continue
+        fn = f.get()
+        ex = symex.Exec(ctx, fn, [("opq", "self"), ("opq", "roff")][:len(fn.params)])
+        ex.run(havoc_unassigned=True, cut_loops=True)
+        seen = set()
+        for ca in list(ex.return_callargs) + [e.get("#callargs", ()) for _, e in ex.cuts]:
+            for c in ca:
+                if not re.match(r"^Roff::control::<", c[0]) or c[1][1:] in seen:
+                    continue
+                seen.add(c[1][1:])
+                n_calls += 1
+                name, args = c[1][1], c[1][2] if len(c[1]) > 2 else ""
+                if re.match(r'^array\((str:"[^"]*"(, ?)?)*\)$', args) or args in ("array()", ""):
+                    ok = name.startswith('str:"')
+                elif args.startswith("array("):
+                    # every non-literal element goes through control_arg
+                    elems = [args[6:-1]] if "[&str; 1]" in c[0] else split_top_level(args[6:-1])
+                    ok = name.startswith('str:"') and all(e.startswith('str:"') or re.match(r"^(String::as_str\()?control_arg\(", e.strip()) for e in elems)
+                else:
+                    ok = name == 'str:"TH"' and "Man::title_args(self)" in args
+                add(fn.name, f"{n.split('::')[-1]}: the arguments of `.{name[5:-1] if name.startswith('str:') else name}` are literals or pass through control_arg", ok)
+        enc.append(_enc(fn, ex, len(seen)))
+    # title_args maps every element through control_arg
+    ta = [f.get() for n, f in fns.items() if n.endswith("::title_args")]
+    ok = False
+    if len(ta) == 1:
+        text = ta[0].text
+        m = re.search(r"as Iterator>::map::<String, (\{closure@clap_mangen/src/lib\.rs:[\d: ]+\})>", text)
+        if m:
+            try:
+                cf = _closure_fn(fns, m.group(1))
+                cex = symex.Exec(ctx, cf, [("opq", "ta_env"), ("opq", "ta_item")]).run()
+                ok = len(cex.returns) == 1 and cex.returns[0][1][0] == "opq" and re.match(r"^control_arg\(", cex.returns[0][1][1]) is not None
+            except Unsupported:
+                ok = False
+    add("title_args", "every `.TH` argument is mapped through control_arg", ok)
+    # control_arg itself removes line breaks
+    cafn = [f.get() for n, f in fns.items() if n == "control_arg" or n.endswith("::control_arg")]
+    ok = False
+    if len(cafn) == 1:
+        t = cafn[0].text
+        ok = "str>::replace::<[char; 2]>" in t.replace("core::str::<impl ", "").replace("impl ", "") or re.search(r"replace::<\[char; 2\]>", t) is not None
+        ok = ok and ("'\\n'" in t and "'\\r'" in t)
+    add("control_arg", "control_arg replaces '\\n' and '\\r' (str::replace with both characters)", ok)
+    if n_calls == 0:
+        add("clap_mangen", "no Roff::control call found in the section renderers", False)
+    return ctx, obs, enc, con
+
+
+spec_mangen_control_args.crate = "clap_mangen"
+SPECS["C19"].append(spec_mangen_control_args)
